@@ -217,10 +217,15 @@ def c12_r1(ctx, f):
         attr = hole_attrs(s.pieces)
         hi = [i for i, a in attr.items() if a == "href"]
         ok = False
+        src = None
         if len(hi) == 1 and hi[0] < len(s.args):
             src = strflow.string_source(fn, s.args[hi[0]]["operand"], s.args[hi[0]]["point"])
             ok = src["kind"] == "call" and src["callee"] in san
-        ctx.check(rid, ok, fn.path + "/href-hole", fn.where(s.new_call.point), fn.path, "href attribute",
+        if not ok and src is not None and src["kind"] == "call" and f.fn(src.get("callee") or "") is not None:
+            # filled by a function of the crate that was not classified as an escaper (nor as anything else): not evidence of a raw flow
+            ctx.abstain(rid, "href is filled by %s, which the escaper classification could not read" % src["callee"], fn.where(s.new_call.point))
+        else:
+          ctx.check(rid, ok, fn.path + "/href-hole", fn.where(s.new_call.point), fn.path, "href attribute",
                   "the href attribute is not filled with the escaped image string", found=attr,
                   sample="href=\"{escaped image}\"")
 
@@ -886,7 +891,9 @@ def c18_t1(ctx, f):
     vs = f.enum_variants(IBS)
     if not fn or not vs:
         return
-    F = fold.Folder(f)
+    from . import peval as _pe
+    F = _pe.PEval(f, max_steps=1_000_000)
+    unfold = []
     for name, d in vs:
         prev = None
         for v in range(1, 41):
@@ -895,6 +902,10 @@ def c18_t1(ctx, f):
             got = to_py(r.value) if r.kind == "ret" else None
             inst = "%s/V%02d" % (name, v)
             if not (isinstance(got, list) and len(got) == 2 and all(isinstance(x, float) for x in got)):
+                if r.kind != "ret" or "top" in str(r.value):
+                    # not evaluated (an unmodelled call, an unknown value): no verdict on the numbers
+                    unfold.append((inst, r.why or str(r.value)[:80]))
+                    continue
                 ctx.fail(rid, "%s/%s" % (fn.path, inst), where_fn(fn), fn.path, inst, "default placement does not fold to two numbers", found=str(r))
                 continue
             b, im = got
@@ -911,6 +922,9 @@ def c18_t1(ctx, f):
             ctx.check(rid, 1 <= im <= b, "%s/%s/image" % (fn.path, inst), where_fn(fn), fn.path, inst,
                       "default image side is not within 1..frame side", found=(b, im))
             prev = b
+    if unfold:
+        ctx.abstain(rid, "image_placement does not fold for %d (shape, version) cell(s), e.g. %s: %s" % (len(unfold), unfold[0][0], unfold[0][1]),
+                    where_fn(fn))
 
 
 def c18_r1(ctx, f):
